@@ -16,3 +16,5 @@ pub(crate) mod maps;
 mod c14;
 #[path = "/verif/kani/lib/c11.rs"]
 pub(crate) mod c11;
+#[path = "/verif/kani/lib/c02.rs"]
+mod c02;
